@@ -49,6 +49,8 @@ def main(argv=None):
             run_seeded(prop, mod, res)
             from .liveness import run_benign
             run_benign(prop, mod, res)
+            from .liveness import run_benign_stored
+            run_benign_stored(prop, mod, res)
     except AnalysisError as exc:
         print(f'ANALYSIS-ERROR property={prop} {exc}')
         return 2
